@@ -28,7 +28,7 @@ def ctl(families_q, families_t, dq, dt, rule, required, nontrivial=None, emit_q=
 
 
 PLANS = {
-    "C01": ctl(["reap", "force", "crash", "all_reap"], ["reap", "reap@v2", "force", "crash", "cordon", "all_reap"],
+    "C01": ctl(["reap", "force", "crash", "overmax", "all_reap"], ["reap", "reap@v2", "force", "crash", "overmax", "cordon", "all_reap"],
                [D("reap", odd=True, faults=12, enum=10), D("mix", lag=True, odd=True), D("cycle", n=20, steps=90, groups=1, faults=3, dry=0),
                 # real time (4 s ticks, really elapsing): time the controller remembers by itself ages too
                 D("cycle", n=32, steps=36, procs=1, par=32, groups=1, faults=3, dry=0, realtime="4s")],
@@ -78,11 +78,11 @@ PLANS = {
                [D("reap", n=60, steps=100, procs=8, faults=8), D("mix", n=60, steps=100, procs=8)],
                "non-trivial: a scan of a group with a cordoned node (fresh, tainted, grace-expired, force-tainted), incl. the capacity gauge read-back",
                ["C09:cordoned-present", "C09:cordoned-tainted", "C09:cordoned-expired", "C09:cordoned-force", "C09:capacity-checked"]),
-    "C10": ctl(["annot"], ["annot", "force", "all_reap"],
-               [D("reap", faults=5), D("mix")],
-               [D("reap", n=60, steps=100, procs=8, faults=5), D("mix", n=60, steps=100, procs=8)],
+    "C10": ctl(["annot", "all_annot"], ["annot", "force", "all_annot", "all_reap"],
+               [D("reap", faults=5, twin=True), D("mix", twin=True)],
+               [D("reap", n=60, steps=100, procs=8, faults=5, twin=True), D("mix", n=60, steps=100, procs=8, twin=True)],
                "non-trivial: a scan of a group with a protected node: kept although expired, others removed next to it, protected node tainted / untainted",
-               ["C10:protected-present", "C10:protected-expired-kept", "C10:others-removed", "C10:protected-untainted"]),
+               ["C10:protected-present", "C10:protected-expired-kept", "C10:others-removed", "C10:protected-untainted", "C10:twin-without-annotation"]),
     "C11": ctl(["dry"], ["dry"],
                [D("mix", dry=60), D("reap", dry=60), D("up", dry=60)],
                [D("mix", n=50, steps=100, procs=6, dry=60), D("reap", n=50, steps=100, procs=6, dry=60), D("up", n=50, steps=100, procs=6, dry=60)],
